@@ -1676,13 +1676,14 @@ func main() {
 			"alphabet per configuration: Get, Put (typed struct / wrapped JSON twins, 2 contents), PutNew (record with stale metadata), Resave (Get then Put of the same object), Delete, SetAbsoluteExpiry (past, +10 s), SetRelativateExpiry(10), PutMany (2 batches of two records, one deleted), Purge (2 queries), 10 s / 20 s pass on the manual clock, MaintainRecordStates (threshold now / now-15 s), Maintain, FlushCache and Flush = one DelayedCacheWriter run ended by its context (delayed writes only), Put of an already deleted record over 4 keys sharing prefixes and a path separator; " +
 			"every history runs on a wiped database through a fresh Interface and on a map[string]entry model; after the last step Exists+Get of all 4 keys (cached keys first, so that the probe's own cache misses cannot evict a stale entry unseen) and 19 queries (5 key prefixes; all 18 operators; and/or/not nested to depth 2) are compared; states de-duplicated on (model, raw storage dump, ARC cache lists and entries, delayed write set); " +
 			"non-trivial = distinct reached states holding at least two records or at least one deleted/expired record. " +
-			"Plus two scenario families: bulk (N records in mixed states, N around bbolt's purge batch size 1000 and up to several B+tree pages, then Purge by prefix / by condition or MaintainRecordStates, compared with the model) and storage-error (a query that meets an unreadable raw record must end its stream and report through Iterator.Err())")
+			"Plus two scenario families: bulk (N records in mixed states, N around bbolt's purge batch size 1000 and up to several B+tree pages, then Purge by prefix / by condition or MaintainRecordStates, compared with the model) storage-error (a query that meets an unreadable raw record must end its stream and report through Iterator.Err()) and condition (input enumeration: every operator x operand values x field values at the numeric boundaries 0, +-1, 2^31, 2^53-1, 2^53, 2^53+1, MaxInt64-1, MaxInt64, MinInt64, MinInt64+1, floats incl. non-integers and 1e300, strings incl. empty/unicode/escapes, bools in all accepted spellings, string lists incl. empty, plus Not of every leaf and And/Or pairs, evaluated on a typed record and on its marshalled-and-reloaded twin against a reference evaluator of the README operator table). The outcome class evicted-pending-write counts the delayed writes that a step pushed out of the cache")
+		c.Assume("operators applied to a field of another type (float operators on an integer field, integer operators on a float or string field, string operators on an integer field) are outside the README operator table; there the struct and the JSON accessor visibly differ (e.g. GetFloat of an integer field: struct refuses, JSON converts), so these cases are evaluated and counted (outcome classes cross-type:*) but not asserted")
 		c.Assume("metadata semantics are those documented in record/meta.go: a save stamps Modified (and Created if unset) and recomputes Expires from a relative TTL; a TTL set through Interface.SetRelativateExpiry therefore takes effect at the next save (not asserted otherwise); a record is expired when now > Expires")
 		c.Assume("a backend that does not implement Purge / PutMany and answers ErrNotImplemented is taken as 'operation not offered' (no effect in the model); the count returned by Purge may or may not include expired records that were not yet deleted")
 		c.Assume("databases are reused between histories by wiping all records (hashmap: new map; bbolt: bucket dropped and re-created; fstree: directory emptied; badger: all keys deleted); the read cache's clock is replaced by the manual clock so that cache TTLs and record expiry run on the same clock, as they do in production")
 		c.Assume("the interface holds all permissions (Local+Internal), as PutMany and delayed writes require; permission clauses belong to C03. Through a delayed write cache, only Get/Put/PutNew/Resave/Delete/Flush/time are offered while a delayed write is pending; every other operation and all queries run after a flush")
 		c.Assume("portbase's own wall-clock timeouts (query executors: consumer must take a record within 1 s; PutMany: next record within 1 s) can only fire here when the process is starved of CPU, as the harness drains and feeds immediately; such a run is repeated (4 attempts) and otherwise reported as an engine error, never as a finding")
-				c.Extra("depth_note", "history depth = max depth, except one less for badger (thorough) and for fstree behind a read cache in the quick tier")
+		c.Extra("depth_note", "history depth = max depth, except one less for badger (thorough) and for fstree behind a read cache in the quick tier")
 
 		if c.Replay != "" {
 			replay(c, opsFor)
